@@ -906,8 +906,11 @@ class Interp(object):
         return Top('call')
 
     def imported_call(self, qual, args, kwargs, node, frame):
-        if qual in ('copy.deepcopy', 'copy.copy'):
-            return args[0] if args else Top('copy')
+        if qual == 'copy.deepcopy':
+            return _deepcopy_data(args[0]) if args else Top('copy')
+        if qual == 'copy.copy':
+            a = args[0] if args else Top('copy')
+            return dict(a) if isinstance(a, dict) else (list(a) if isinstance(a, list) else a)
         if qual == 'functools.partial':
             return self.make_partial(args, kwargs)
         if qual.startswith('six.moves.') and qual[10:] in ('range', 'zip', 'map', 'filter'):
@@ -925,8 +928,11 @@ class Interp(object):
         if isinstance(base, ModRef):
             if base.name == 'functools' and name == 'partial':
                 return self.make_partial(args, kwargs)
-            if base.name == 'copy' and name in ('deepcopy', 'copy'):
-                return args[0]
+            if base.name == 'copy' and name == 'deepcopy':
+                return _deepcopy_data(args[0])
+            if base.name == 'copy' and name == 'copy':
+                a = args[0]
+                return dict(a) if isinstance(a, dict) else (list(a) if isinstance(a, list) else a)
             return Top('call:%s.%s' % (base.name, name))
         if isinstance(base, list):
             if name == 'append':
@@ -958,6 +964,13 @@ class Interp(object):
                 if _has_abstract(base) or _has_abstract(args[0]):
                     return Top('int')
                 return base.count(args[0])
+            if name == 'index' and args and not _has_abstract(base) and not _has_abstract(args[0]):
+                try:
+                    return base.index(args[0])
+                except ValueError:
+                    raise Raise('ValueError', node, self.where(node, frame))
+            if name == 'copy':
+                return list(base)
         if isinstance(base, dict):
             if name == 'get':
                 k = args[0]
@@ -1599,6 +1612,17 @@ class Interp(object):
             return f
 
         return self.run_paths(fi.node.body, mk, label or fi.qualname)
+
+
+def _deepcopy_data(v):
+    """copy.deepcopy on plain containers (abstract objects are shared: their identity is what rules track)."""
+    if isinstance(v, dict):
+        return dict((k, _deepcopy_data(x)) for k, x in v.items())
+    if isinstance(v, list):
+        return [_deepcopy_data(x) for x in v]
+    if isinstance(v, tuple):
+        return tuple(_deepcopy_data(x) for x in v)
+    return v
 
 
 def _as_load(t):
